@@ -10,6 +10,7 @@
      lexerrors    = `start-end:K` of the lexer errors (from parse_with), in token order
      identity     = digest of rewrite leave_all root, digest of token_rewrite keep_all root
      repl         = per request: digests of bytes_of after token_rewrite / rewrite with the counting closures
+     (inputs given by a descriptor `@deep:..` or marked BIG by the harness are answered `SKIP`)
      mflags       = C model crash, R tokens left unconsumed, I identity rewrite not identical, `-` none
    `c17_run --kw` prints the model's keyword table (`K word` reserved, `N word` VHDL-2019 only). *)
 open BinNums
@@ -69,8 +70,14 @@ let kw () =
   Stdlib.List.iter (fun w -> print_endline ("K " ^ ascii w)) kw2008;
   Stdlib.List.iter (fun w -> print_endline ("N " ^ ascii w)) kw2019_only
 
+(* the replay takes the tree shape as it is: no bail-out of its own (the implementation's tree never has
+   more than MAX_OPEN_NODES + 1 open nodes) *)
+let no_limit = nat_of_int 100000
+
 let case (ln : string) =
+  if Stdlib.String.length ln > 0 && Stdlib.String.get ln 0 = '@' then print_endline "SKIP" else
   match split_on '|' ln with
+  | [_; "BIG"; _] -> print_endline "SKIP"
   | [bytes; tree; repl] ->
     let bs = ns_of_string bytes in
     let raw = match synlex kw2008 bs with LexOk ts -> Some ts | _ -> None in
@@ -84,10 +91,10 @@ let case (ln : string) =
     let mflags = Buffer.create 4 in
     if tree = "" then Buffer.add_string buf "||||-"
     else begin
-      match Builder.parse_with (parse_events tree) stream with
+      match Builder.parse_with no_limit (parse_events tree) stream with
       | None -> Buffer.add_string buf "||||C"
-      | Some ((root, errs), rest) ->
-        if rest <> [] then Buffer.add_char mflags 'R';
+      | Some (((root, errs), rest), deferred) ->
+        if rest <> [] || deferred <> None then Buffer.add_char mflags 'R';
         (* offsets *)
         let walk = Green.red_walk N0 root in
         Buffer.add_string buf (Stdlib.String.concat ";"
